@@ -245,7 +245,19 @@ def decision_part(ctx, env):
     return fails
 
 
-PARTS = [decision_part]
+def e2e_part(ctx, env):
+    """end-to-end half on the in-process NetQASM hosts: refused requests answer an error and create no qubit anywhere"""
+    import net_sync as N
+    import qasm_sync as Q
+    from props import c09, c12_e2e
+    ctx.trusted += c09.TRUST
+    qenv = N.setup()
+    Q.setup_qasm(qenv)
+    c12_e2e.extra(ctx, qenv)
+    return []
+
+
+PARTS = [decision_part, e2e_part]
 
 
 def run(ctx):
